@@ -317,6 +317,10 @@ def judge_obs(chk, which, cases, obs, bad_base, dropped):
                 ok = False
                 break
         if ok:
+            if which == "native-debug":
+                chk.sample({"enum": text, "discriminants": e["dvals"], "values": [emit_value(e, *v) for v in vals[:4]],
+                            "observations": ["%s vs %s -> %s" % (emit_value(e, *vals[i]), emit_value(e, *vals[j]), res[0])
+                                             for op, i, j, res, ev in o.recs[:3]]}, limit=4)
             chk.held(digest(text), len(e["variants"]) >= 1, 0)
             chk.count("%s/repr=%s/%s" % (which, (e["reprs"] or ["none"])[0].split("(")[0],
                                          "explicit" if any(d is not None for d in e["disc"]) else "implicit"))
